@@ -111,3 +111,69 @@ func (t *Ticker) Reset(d Duration) {
 	}
 	t.stopped = false
 }
+
+// ---- timers (not used by the code under test today; present so that a change which introduces them
+// still builds and stays under the scheduler's control) ----
+
+// Timer: under the scheduler it fires when the environment advances the virtual clock past its deadline.
+type Timer struct {
+	C    <-chan Time
+	c    chan Time
+	real *time.Timer
+	ts   *vrt.TimerState
+	f    func()
+}
+
+func newTimer(d Duration, f func()) *Timer {
+	t := &Timer{f: f}
+	if !vrt.On() {
+		if f != nil {
+			t.real = time.AfterFunc(d, f)
+		} else {
+			t.real = time.NewTimer(d)
+			t.C = t.real.C
+		}
+		return t
+	}
+	t.c = make(chan Time, 1)
+	t.C = t.c
+	t.arm(d)
+	return t
+}
+
+func (t *Timer) arm(d Duration) {
+	t.ts = vrt.AddTimer(int64(d), func() {
+		if t.f != nil {
+			vrt.Go(t.f)
+			return
+		}
+		select {
+		case t.c <- Now():
+		default:
+		}
+	})
+}
+
+func NewTimer(d Duration) *Timer            { return newTimer(d, nil) }
+func AfterFunc(d Duration, f func()) *Timer { return newTimer(d, f) }
+func After(d Duration) <-chan Time          { return newTimer(d, nil).C }
+func Tick(d Duration) <-chan Time {
+	tk := NewTicker(d)
+	return tk.C
+}
+
+func (t *Timer) Stop() bool {
+	if t.real != nil {
+		return t.real.Stop()
+	}
+	return vrt.StopTimer(t.ts)
+}
+
+func (t *Timer) Reset(d Duration) bool {
+	if t.real != nil {
+		return t.real.Reset(d)
+	}
+	was := vrt.StopTimer(t.ts)
+	t.arm(d)
+	return was
+}
